@@ -31,7 +31,7 @@ ASSUMPTIONS = [
     "n ranges over 0..N only (N=6..8 discrete, 3..4 continuous); all-n reach for an instance comes from chaining with C03/C04",
 ]
 TIMEOUT = {"quick": 18, "thorough": 120}
-DEADLINE = {"quick": 80, "thorough": 1500}
+DEADLINE = {"quick": 80, "thorough": 1000}
 MIN_DECIDING = {"quick": 40, "thorough": 300}
 NCASES = {"quick": 110, "thorough": 2600}
 
